@@ -243,7 +243,11 @@ impl CanonicalRequest {
                         }
                     };
 
-                    query_parameters.extend(query_string_to_normalized_map(body_query.as_str())?);
+                    // Append the body parameters to the URL parameters. `HashMap::extend` must not be used here: it would
+                    // replace the values of every name that occurs both in the URL and in the body instead of adding to them.
+                    for (key, values) in query_string_to_normalized_map(body_query.as_str())? {
+                        query_parameters.entry(key).or_default().extend(values);
+                    }
                     // Rebuild the parts URI with the new query string.
                     let qs = canonicalize_query_to_string(&query_parameters);
                     trace!("Rebuilding URI with new query string: {}", qs);
